@@ -608,8 +608,10 @@ def information_schema_fs_tables_ext(expression: exp.Expression) -> exp.Expressi
         and tbl_exp.name.upper() == "TABLES"
         and tbl_exp.db.upper() == "INFORMATION_SCHEMA"
     ):
+        # the comments of a database are kept in that database's side table, also when it is read from another one
+        ext_catalog = f"{tbl_exp.catalog}." if tbl_exp.catalog else ""
         return expression.join(
-            "information_schema._fs_tables_ext",
+            f"{ext_catalog}information_schema._fs_tables_ext",
             on=(
                 """
                 tables.table_catalog = _fs_tables_ext.ext_table_catalog AND
